@@ -286,6 +286,10 @@ if __name__ == '__main__':
 # Real SIGINT delivery (C14): Ctrl-C goes to the whole foreground process group
 
 def sigint_child_main(backend: str, mw: str, n: str, storage_dir: str):
+    # a check started as a background job of a non-interactive shell inherits SIGINT = ignored,
+    # and Python then never installs its KeyboardInterrupt handler: establish the disposition an
+    # interactive caller has (otherwise the signal is simply dropped and the run never ends)
+    signal.signal(signal.SIGINT, signal.default_int_handler)
     silence_labtech()
     import labtech
     from .spec import Built
